@@ -3,6 +3,7 @@ import Norad.Lemmas.GlifTables
 import Norad.Lemmas.JudgeLink
 import Norad.Lemmas.JudgeDoc
 import Norad.Lemmas.JudgeConverse
+import Norad.Lemmas.JudgeBody
 import Norad.Generated.GlifParser
 import Norad.Lemmas.C02
 import Norad.Lemmas.GlifGen
